@@ -106,9 +106,9 @@ theorem diffRows_values (f t : List (Int × Row)) :
 
 /-! ### changed column list -/
 
-theorem diffKeyU_some (fc tc u : List Col) (k : Int) (f t : Option Row) (d : DiffRow)
-    (h : diffKeyU fc tc u k f t = some d) :
-    d.pk = k ∧ d.from = f ∧ d.to = t ∧ f.map (projRow fc u) ≠ t.map (projRow tc u) := by
+theorem diffKeyU_some (k : Int) (f t : Option Row) (d : DiffRow)
+    (h : diffKeyU k f t = some d) :
+    d.pk = k ∧ d.from = f ∧ d.to = t ∧ f.map trimNulls ≠ t.map trimNulls := by
   unfold diffKeyU at h
   split at h
   · cases h
@@ -118,8 +118,8 @@ theorem diffKeyU_some (fc tc u : List Col) (k : Int) (f t : Option Row) (d : Dif
     · cases h
     · next hne => cases h; simp [hne]
 
-theorem diffKeyU_of_ne (fc tc u : List Col) (k : Int) (f t : Option Row)
-    (h : f.map (projRow fc u) ≠ t.map (projRow tc u)) : ∃ d, diffKeyU fc tc u k f t = some d := by
+theorem diffKeyU_of_ne (k : Int) (f t : Option Row)
+    (h : f.map trimNulls ≠ t.map trimNulls) : ∃ d, diffKeyU k f t = some d := by
   unfold diffKeyU
   cases f with
   | none =>
@@ -130,32 +130,31 @@ theorem diffKeyU_of_ne (fc tc u : List Col) (k : Int) (f t : Option Row)
     cases t with
     | none => exact ⟨_, rfl⟩
     | some tr =>
-      have : ¬ projRow fc u fr = projRow tc u tr := fun e => h (by simp [e])
+      have : ¬ trimNulls fr = trimNulls tr := fun e => h (by simp [e])
       simp [this]
 
 theorem diffTables_eq (ft tt : Table) (hne : ft.cols ≠ tt.cols) :
     diffTables (some ft) (some tt) =
       (unionKeys ltInt (keys ft.rows) (keys tt.rows)).filterMap (fun k =>
-        diffKeyU ft.cols tt.cols (unionCols ft.cols tt.cols) k (get ft.rows k) (get tt.rows k)) := by
+        diffKeyU k (get ft.rows k) (get tt.rows k)) := by
   simp [diffTables, hne]
 
 theorem diffTables_sorted (ft tt : Table) (hne : ft.cols ≠ tt.cols) :
     Sorted ltInt ((diffTables (some ft) (some tt)).map (·.pk)) := by
   rw [diffTables_eq ft tt hne]
   exact List.Pairwise.sublist
-    (pk_filterMap_sublist _ _ (fun k d h => (diffKeyU_some _ _ _ k _ _ d h).1))
+    (pk_filterMap_sublist _ _ (fun k d h => (diffKeyU_some k _ _ d h).1))
     (sorted_unionKeys strictTotal_ltInt _ _)
 
 theorem diffTables_mem (ft tt : Table) (hne : ft.cols ≠ tt.cols) (k : Int) :
     (∃ d ∈ diffTables (some ft) (some tt), d.pk = k) ↔
-      ((get ft.rows k).map (projRow ft.cols (unionCols ft.cols tt.cols)) ≠
-        (get tt.rows k).map (projRow tt.cols (unionCols ft.cols tt.cols))) := by
+      ((get ft.rows k).map trimNulls ≠ (get tt.rows k).map trimNulls) := by
   rw [diffTables_eq ft tt hne]
-  rw [mem_filterMap_pk _ _ (fun k d h => (diffKeyU_some _ _ _ k _ _ d h).1)]
+  rw [mem_filterMap_pk _ _ (fun k d h => (diffKeyU_some k _ _ d h).1)]
   constructor
   · rintro ⟨_, hs⟩
     obtain ⟨d, hd⟩ := Option.isSome_iff_exists.mp hs
-    exact (diffKeyU_some _ _ _ k _ _ d hd).2.2.2
+    exact (diffKeyU_some k _ _ d hd).2.2.2
   · intro hne'
     constructor
     · rw [mem_unionKeys]
@@ -163,8 +162,8 @@ theorem diffTables_mem (ft tt : Table) (hne : ft.cols ≠ tt.cols) (k : Int) :
       intro hn
       have h1 : k ∉ keys ft.rows := fun h => hn (Or.inl h)
       have h2 : k ∉ keys tt.rows := fun h => hn (Or.inr h)
-      exact hne' (by rw [get_none_of_not_mem ft.rows k h1, get_none_of_not_mem tt.rows k h2]; rfl)
-    · obtain ⟨d, hd⟩ := diffKeyU_of_ne _ _ _ k _ _ hne'
+      exact hne' (by rw [get_none_of_not_mem ft.rows k h1, get_none_of_not_mem tt.rows k h2])
+    · obtain ⟨d, hd⟩ := diffKeyU_of_ne k _ _ hne'
       simp [hd]
 
 theorem diffTables_values (ft tt : Table) (hne : ft.cols ≠ tt.cols) :
@@ -172,7 +171,7 @@ theorem diffTables_values (ft tt : Table) (hne : ft.cols ≠ tt.cols) :
   intro d hd
   rw [diffTables_eq ft tt hne] at hd
   obtain ⟨k, _, hk⟩ := List.mem_filterMap.mp hd
-  obtain ⟨h1, h2, h3, _⟩ := diffKeyU_some _ _ _ k _ _ d hk
+  obtain ⟨h1, h2, h3, _⟩ := diffKeyU_some k _ _ d hk
   rw [h1]
   exact ⟨h2, h3⟩
 
